@@ -391,3 +391,37 @@ def rebinding_contexts(with_provider: bool = True) -> list[Ctx]:
                 c.tags += ["rebind", bk, uk]
                 out.append(c)
     return out
+
+
+def group_contexts() -> list[Ctx]:
+    """Exhaustive small family: the named group `*g` in two (or three) tensors, covering 0, 1 or 2 axes in each, at the front, in the
+    middle or at the end; the axes they have in common agree or differ in one place.  A group stands for ONE tuple of sizes."""
+    out = []
+    f32 = dt(0, "float32")
+    sizes = [3, 4]
+    for k1 in (0, 1, 2):
+        for k2 in (0, 1, 2):
+            for place1, place2 in (("*g c", "*g c"), ("*g c", "c *g"), ("c *g d", "*g"), ("*g", "d *g c")):
+                for differ in (False, True):
+                    g1 = tuple(sizes[:k1])
+                    g2 = list(sizes[:k2])
+                    if differ:
+                        if not g2:
+                            continue
+                        g2[-1] += 1
+                    fix = {"c": 2, "d": 5}
+
+                    def shape(place, g):
+                        sh = []
+                        for d in place.split():
+                            sh += list(g) if d == "*g" else [fix[d]]
+                        return tuple(sh)
+
+                    c = Ctx()
+                    c.params.append(Param("x", [Slot("FloatTensor", place1, False, ("T", f32, shape(place1, g1)))], False))
+                    c.params.append(Param("y", [Slot("FloatTensor", place2, False, ("T", f32, shape(place2, g2)))], False))
+                    if k1 == k2 and not differ:
+                        c.params.append(Param("z", [Slot("FloatTensor", "*g", False, ("T", f32, g1))], False))
+                    c.tags += ["group", f"{k1}:{k2}"]
+                    out.append(c)
+    return out
